@@ -299,7 +299,11 @@ func (f *file) writeBlobAt(op string, p blob.Blob, off int64) (n int, err error)
 	if f.flag&hackpadfs.FlagAppend != 0 {
 		off = int64(f.Size())
 	}
-	if p.Len() == 0 && off >= 0 {
+	if off < 0 {
+		// refuse before growing the file, so that the failed write leaves the contents unchanged
+		return 0, &hackpadfs.PathError{Op: op, Path: f.path, Err: errors.New("negative offset")}
+	}
+	if p.Len() == 0 {
 		// nothing to write, in particular don't grow the file up to 'off'
 		return 0, nil
 	}
